@@ -330,3 +330,34 @@ def r19_4(ctx):
             obs = f"{body.count('__COMPOUND_PART1__')} markers"
         ctx.check(f"insn {name}", not dup and okc, "unique name; a compound has two markers and balanced braces", "duplicate name" if dup else obs, f"{rel}:{ln}", nontrivial=False)
     ctx.check("number of bundled instructions", len(names) >= 2000, ">= 2000", str(len(names)), rel)
+
+
+def compound_split_valuation(ctx):
+    """split_compounds evaluated on bodies of every shape of head (nothing, statements, a block, a loop): the two parts together hold
+    every token of the body, in order - nothing in front of the first marker is lost, whatever it ends with"""
+    from sa.absint import AObj, Interp
+
+    idx = get_index(ctx.env)
+    fi = idx.func(f"{PP}.split_compounds")
+    M = "__COMPOUND_PART1__"
+    bodies = [
+        ("no head", "{" + M + "{ A; }" + M + " B; }"),
+        ("statements in front", "{ H; G = 1; " + M + "{ A; }" + M + " B; }"),
+        ("a block in front", "{ if (c) { H; } " + M + "{ A; }" + M + " B; }"),
+        ("a loop in front", "{ for (i = 0; i < 2; i++) { H; } " + M + "{ A; }" + M + " B; C; }"),
+        ("a nested block in front", "{ { H; } " + M + "{ if (p) { A; } }" + M + " B; }"),
+    ]
+
+    def squash(t):
+        return re.sub(r"[\s{}]", "", t.replace(M, ""))
+    for name, body in bodies:
+        outs = Interp(idx).explore(lambda i, body=body: i.call_function(fi, [body], self_obj=AObj(PP, {}, label="self")))
+        got = [o.value if o.kind == "return" else "RAISE" for o in outs]
+        ok = len(got) == 1 and isinstance(got[0], (tuple, list)) and len(got[0]) == 2 and all(isinstance(x, str) for x in got[0]) and squash("".join(got[0])) == squash(body) \
+            and "A;" in got[0][0] and "B;" in got[0][1] and "H;" not in got[0][1]
+        ctx.check(f"split_compounds [{name}]: both parts together hold the whole body", ok or got == ["RAISE"], "part 1 = head + marked block, part 2 = the rest (or the body is rejected)", str(got)[:160], fn_where(idx, fi))
+
+
+@rule("R19.5", "C19", "splitting a compound body loses nothing: whatever stands in front of the first marker (statements, a block, a loop) is part of the first behaviour", min_instances=5)
+def r19_5(ctx):
+    compound_split_valuation(ctx)
